@@ -2,7 +2,7 @@
    Every answer is VL [model; spec] where spec = VL [] when the case is outside the specification's
    precondition (then only model == implementation is decided). *)
 From Coq Require Import ZArith List Bool.
-From EV Require Import Res Arr Val StableSort Spans SpansSpec FilterIndex FilterIndexSpec Group GroupSpec E_C09.
+From EV Require Import Res Arr Val StableSort Spans SpansSpec FilterIndex FilterIndexSpec Group GroupSpec GroupHist GroupHistSpec E_C09.
 Import ListNotations.
 Open Scope Z_scope.
 
@@ -39,8 +39,38 @@ Definition vopt_frame (o:option frame) : val := match o with Some d => vframe d 
 (* the references session_aggregate_ref / session_distinct_ref are in Spec/GroupSpec.v *)
 Definition vres2' (r:list Z * option (list Z)) : val := VL [vlist (fst r); vopt vlist (snd r)].
 
+(* a history event: [0; by; hint; steps] | [1; by; hint] | [2; name; field] | [3; name; idx] | [4; flt] | [5; idx] | [6; by] *)
+Definition as_hev (v:val) : option hev :=
+  match v with
+  | VL [VZ 0; by_; VZ hint; steps] =>
+    match as_list by_, as_gsteps steps with
+    | Some by_, Some ss => Some (HGroup by_ (negb (hint =? 0)) ss)
+    | _, _ => None
+    end
+  | VL [VZ 1; by_; VZ hint] =>
+    match as_list by_ with Some by_ => Some (HDropDup by_ (negb (hint =? 0))) | None => None end
+  | VL [VZ 2; VZ name; f] =>
+    match as_field f with Some f => Some (HWrite name (fbody f)) | None => None end
+  | VL [VZ 3; VZ name; idx] =>
+    match as_list idx with Some idx => Some (HFieldIndex name idx) | None => None end
+  | VL [VZ 4; flt] => match as_list flt with Some flt => Some (HFilter flt) | None => None end
+  | VL [VZ 5; idx] => match as_list idx with Some idx => Some (HIndex idx) | None => None end
+  | VL [VZ 6; by_] => match as_list by_ with Some by_ => Some (HSort by_) | None => None end
+  | _ => None
+  end.
+Definition as_hevs (v:val) : option (list hev) :=
+  match v with VL l => all_some (map as_hev l) | _ => None end.
+Definition vhist (r:list frame * frame) : val := VL [VL (map vframe (fst r)); vframe (snd r)].
+
 Definition entry_C07 (v:val) : val :=
   match v with
+  | VL [VZ 5; cols; evs] =>
+    match as_frame cols, as_hevs evs with
+    | Some cols, Some evs =>
+      both (of_res vhist (run_hist cols evs []))
+           (match spec_hist cols evs [] with Some r => vhist r | None => vna end)
+    | _, _ => vbad
+    end
   | VL [VZ 1; cols; by_; VZ hint; ddf; steps] =>
     match as_frame cols, as_list by_, as_frame ddf, as_gsteps steps with
     | Some cols, Some by_, Some ddf, Some steps =>
